@@ -271,6 +271,55 @@ theorem first_order_is_observation_order (h : List Bytes → UInt64) (pn : Bytes
       simp [e']
     · intro e; rw [e]; omega
 
+/-- **first_order_is_observation_order**, refined to the raw observation sequence over the keys:
+the comparator orders two keys' values by the position of their FIRST OCCURRENCE in the sequence of
+the field's values over the keys in creation order. -/
+theorem first_order_is_first_occurrence (h : List Bytes → UInt64) (pn : Bytes → NumC) (p : Proj)
+    (hr : C08.Reachable h p) (f : Field) (hf : f ∈ p.flat) (ho : f.order = .first)
+    (a b : Nat) (ha : a < p.nodes.length) (hb : b < p.nodes.length) :
+    f.cmp pn (p.get a f) (p.get b f) < 0 ↔
+      (obsSeq p f.idx).idxOf (p.get a f) < (obsSeq p f.idx).idxOf (p.get b f) := by
+  rw [(first_order_is_observation_order h pn p hr f hf ho a b ha hb).1]
+  have hmem : ∀ k, k < p.nodes.length → p.get k f ∈ obsSeq p f.idx := by
+    intro k hk
+    unfold obsSeq Proj.get
+    rw [C08.vals_eq_getElem p k hk]
+    exact List.mem_map_of_mem (List.getElem_mem hk)
+  exact firstOcc_idxOf_lt _ _ _ (hmem a ha) (hmem b hb)
+
+theorem runProjects_reachable (h : List Bytes → UInt64) (ops : List (Env × Res)) (p : Proj)
+    (hr : C08.Reachable h p) : C08.Reachable h (runProjects h p ops).1 := by
+  induction ops generalizing p with
+  | nil => exact hr
+  | cons op rest ih =>
+    obtain ⟨env, r⟩ := op
+    exact ih _ (C08.Reachable.project p env r hr)
+
+/-- …and to the stream of RESULTS: start from a projection that has no keys yet, project any
+stream of results (`runProjects`; the parser state may differ from call to call). For every
+flattened field with the default order, two keys compare by which of their values was seen first
+in the stream, where the value of a result at the field is what the closures put into the row
+("" while a `.config` key had not yet been seen: the row is then shorter). -/
+theorem first_order_is_stream_order (h : List Bytes → UInt64) (pn : Bytes → NumC) (p₀ : Proj)
+    (hr₀ : C08.Reachable h p₀) (hn₀ : p₀.nodes = []) (ops : List (Env × Res))
+    (f : Field) (hf : f ∈ (runProjects h p₀ ops).1.flat) (ho : f.order = .first)
+    (a b : Nat) (ha : a < (runProjects h p₀ ops).1.nodes.length) (hb : b < (runProjects h p₀ ops).1.nodes.length) :
+    f.cmp pn ((runProjects h p₀ ops).1.get a f) ((runProjects h p₀ ops).1.get b f) < 0 ↔
+      ((runProjects h p₀ ops).2.map fun row => getVal row f.idx).idxOf ((runProjects h p₀ ops).1.get a f) <
+      ((runProjects h p₀ ops).2.map fun row => getVal row f.idx).idxOf ((runProjects h p₀ ops).1.get b f) := by
+  have hreach := runProjects_reachable h ops p₀ hr₀
+  have hobs := runProjects_obs h ops p₀ f.idx [] (by simp [obsSeq, hn₀])
+  simp only [List.nil_append] at hobs
+  rw [(first_order_is_observation_order h pn _ hreach f hf ho a b ha hb).1, ← hobs]
+  have hmem : ∀ k, k < (runProjects h p₀ ops).1.nodes.length →
+      (runProjects h p₀ ops).1.get k f ∈ (runProjects h p₀ ops).2.map fun row => getVal row f.idx := by
+    intro k hk
+    rw [← mem_firstOcc, hobs, mem_firstOcc]
+    unfold obsSeq Proj.get
+    rw [C08.vals_eq_getElem _ k hk]
+    exact List.mem_map_of_mem (List.getElem_mem hk)
+  exact firstOcc_idxOf_lt _ _ _ (hmem a ha) (hmem b hb)
+
 /-- The F15 witness on the model (`.config`; results {a:1}, {a:1,b:x}, {a:2}): the key without `b`
 sorts before the key with `b=x`, before and after the third result is projected. -/
 def f15Witness : Bool :=
